@@ -3,9 +3,9 @@ import MypyVerif.Model.Reach
 Line-protocol driver for the reachability model (model file only).
 
   <platform> <always_true,…|-> <always_false,…|-> | <cond> | <entry> ; <entry> ; …
-      entry  = <target> ~ <name>=<1|0|x> … ~ <k>=<1|0|x> … ~ <k>=<1|0|x> …
-               (run-time truth of the names and of the opaque leaves; last: the opaque leaves when evaluated
-                with TYPE_CHECKING = MYPY = True; x = evaluating it raises)
+      entry  = <target> ~ <name>=<1|0|x> … ~ <name>=<1|0|x> … ~ <k>=<1|0|x> … ~ <k>=<1|0|x> …
+               (measured truth of the names at run time / with TYPE_CHECKING = MYPY = True, then of the opaque
+                leaves at run time / with TYPE_CHECKING = MYPY = True; x = evaluating it raises)
       target = <major>.<minor>.<micro>.<releaselevel>.<serial>
       cond   = cmp <operand> <op> <operand> | call <operand> <meth> <operand> | callkw … | name <ident> | opq <k>
              | not <cond> | and <cond> <cond> | or <cond> <cond>            (prefix notation)
@@ -93,7 +93,7 @@ def step (line : String) : String :=
     | [plat, atr, afa], some (c, []) =>
       let res := (entries.splitOn ";").map fun e =>
         match e.splitOn "~" with
-        | [t, names, opqRt, opqMt] =>
+        | [t, names, namesMt, opqRt, opqMt] =>
           match t.trimAscii.toString.splitOn "." with
           | [ma, mi, mc, lv, se] =>
             match ma.toNat?, mi.toNat?, mc.toNat?, se.toNat? with
@@ -105,8 +105,9 @@ def step (line : String) : String :=
                                    alwaysTrue := csv atr, alwaysFalse := csv afa }
               let env : Env := { versionInfo := [.int ma, .int mi, .int mc, .str lv, .int se], platform := o.platform,
                                  names := fun n => (nm.lookup n).join, opq := fun k => (oq.lookup (toString k)).join }
-              let env2 : Env := { env with opq := fun k => (oq2.lookup (toString k)).join }
-              s!"{showTV (infer o c)}/{showRt (eval env c)}/{showRt (eval (mtEnv env2) c)}"
+              let nm2 := parseBoolMap namesMt
+              let env2 : Env := { env with names := fun n => (nm2.lookup n).join, opq := fun k => (oq2.lookup (toString k)).join }
+              s!"{showTV (infer o c)}/{showRt (eval env c)}/{showRt (eval env2 c)}"
             | _, _, _, _ => "bad-target"
           | _ => "bad-target"
         | _ => "bad-entry"
